@@ -302,12 +302,19 @@ class C20(Check):
                    "-rss_limit_mb=4096", "-malloc_limit_mb=2048", "-max_len=24000", "-artifact_prefix=" + adir,
                    "-print_final_stats=1", cdir, corp[ckind]]
             lf = open(os.path.join(work, "log_" + label), "wb")
-            procs.append((subprocess.Popen(cmd, env=e, stdout=lf, stderr=subprocess.STDOUT, cwd=work), lf))
+            procs.append((subprocess.Popen(cmd, env=e, stdout=lf, stderr=subprocess.STDOUT, cwd=work, start_new_session=True), lf))
+        t_end = time.time() + budget + 45        # fork mode waits for straggling jobs (slow units): bound it
         for pr, lf in procs:
             try:
-                pr.wait(timeout=budget + 900)
+                pr.wait(timeout=max(1, t_end - time.time()))
             except subprocess.TimeoutExpired:
-                pr.kill()
+                import signal
+                try:
+                    os.killpg(pr.pid, signal.SIGKILL)
+                except OSError:
+                    pass
+                pr.wait()
+                labels["campaign-stopped-at-budget"] = labels.get("campaign-stopped-at-budget", 0) + 1
             lf.close()
         for ti, (label, binname, env, ckind) in enumerate(TARGETS):
             cdir = os.path.join(work, "corpus_" + label)
